@@ -123,6 +123,15 @@ type scenario struct {
 	parent *channel.ID
 	seq    []mexplore.Op // nil: random walk
 	length int
+	// siblings are other channels with the same peers that exist in the store before the history
+	// starts and are never touched: whatever happens to the channel under test, and wherever the
+	// process stops, they must be restored unchanged.
+	siblings []*sibling
+}
+
+type sibling struct {
+	w    *mexplore.World
+	view string
 }
 
 // runHistory executes the history on a fresh machine over db and returns the records.
@@ -130,13 +139,21 @@ func runHistory(sc *scenario, rng *rand.Rand, db *faultkv.DB) (*recorder, []mexp
 	pr := keyvalue.NewPersistRestorer(db)
 	m := sc.w.NewMachine()
 	rc := &recorder{db: db, peers: sc.peers, parent: sc.parent, last: absent}
+	for _, sb := range sc.siblings {
+		sm := sb.w.NewMachine()
+		if err := pr.ChannelCreated(ctx, sm, sc.peers, nil); err != nil {
+			panic(fmt.Sprintf("c10: ChannelCreated (sibling): %v", err))
+		}
+		sb.view = view(sm, sc.peers, nil)
+	}
+	w0 := db.Writes()
 	// operation 0: ChannelCreated
 	err := pr.ChannelCreated(ctx, m, sc.peers, sc.parent)
 	if err != nil {
 		panic(fmt.Sprintf("c10: ChannelCreated: %v", err))
 	}
 	after := view(m, sc.peers, sc.parent)
-	rc.ops = append(rc.ops, opRec{op: "ChannelCreated", before: absent, after: after, wBefore: 0, wAfter: db.Writes()})
+	rc.ops = append(rc.ops, opRec{op: "ChannelCreated", before: absent, after: after, wBefore: w0, wAfter: db.Writes()})
 	rc.last, rc.lastW = after, db.Writes()
 	d := pdriver.New(m, pr)
 	var seq []mexplore.Op
@@ -185,6 +202,11 @@ func run(r *ev.Run, cfg props.Cfg) {
 				if rng.Intn(3) == 0 {
 					id := gen.ID(rng)
 					sc.parent = &id
+				}
+				if rng.Intn(4) == 0 {
+					for k := 0; k < 3; k++ { // three, so that ids below and above the channel's are likely
+						sc.siblings = append(sc.siblings, &sibling{w: mexplore.NewWorld(rng, 2, rng.Intn(2), gen.AppKind(rng.Intn(3)), 1)})
+					}
 				}
 				// every worker also runs its share of the skeleton histories
 				if idx := i*cfg.Workers + wk; idx < len(skel) {
@@ -236,8 +258,8 @@ func one(r *ev.Run, rng *rand.Rand, sc *scenario, lvlFrac int, sample bool) {
 	}
 	// --- LevelDB: re-run the executed sequence per crash point, drop later writes, re-open
 	total := rc.ops[len(rc.ops)-1].wAfter // writes after the channel's removal are outside the history
-	fixed := &scenario{w: sc.w, peers: sc.peers, parent: sc.parent, seq: seq}
-	for k := 1; k <= total; k++ {
+	fixed := &scenario{w: sc.w, peers: sc.peers, parent: sc.parent, seq: seq, siblings: sc.siblings}
+	for k := rc.ops[0].wBefore + 1; k <= total; k++ { // (writes that set up sibling channels come before the history)
 		if rng.Intn(100) >= lvlFrac {
 			continue
 		}
@@ -363,6 +385,7 @@ func check(r *ev.Run, store string, db sortedkv.Database, sc *scenario, rc *reco
 	for pi, p := range sc.peers {
 		var found *persistence.Channel
 		var ierr error
+		others := map[channel.ID]string{}
 		func() {
 			defer func() {
 				if pn := recover(); pn != nil {
@@ -375,12 +398,25 @@ func check(r *ev.Run, store string, db sortedkv.Database, sc *scenario, rc *reco
 				return
 			}
 			for it.Next(ctx) {
-				if c := it.Channel(); c.ID() == id {
+				c := it.Channel()
+				if c.ID() == id {
 					found = c
+				} else {
+					others[c.ID()] = view(c, c.PeersV, c.Parent)
 				}
 			}
 			ierr = it.Close()
 		}()
+		for _, sb := range sc.siblings {
+			r.Count("sibling_restores_checked", 1)
+			got, ok := others[sb.w.Params.ID()]
+			switch {
+			case !ok:
+				fail("sibling-lost", fmt.Sprintf("RestorePeer(%d)", pi), fmt.Sprintf("an untouched channel of the same peer is no longer restored (iterator error: %v)", ierr), "")
+			case got != sb.view:
+				fail("sibling-changed", fmt.Sprintf("RestorePeer(%d)", pi), "an untouched channel of the same peer is restored with other data: "+diff(sb.view, got), got)
+			}
+		}
 		if ierr != nil && found == nil {
 			judge(fmt.Sprintf("RestorePeer(%d)", pi), nil, ierr)
 		} else {
